@@ -12,8 +12,11 @@ float64 = float
 int64 = int
 
 
+RAW = False        # RAW mode: store values as they are (used when another symbolic executor - CrossHair - supplies the numbers)
+
+
 def _w(x):
-    if isinstance(x, SymNum):
+    if RAW or isinstance(x, SymNum):
         return x
     if isinstance(x, bool):
         return SymNum({}, int(x), 1)
@@ -89,7 +92,7 @@ class ndarray:
 
 
 def zeros(n, dtype=None):
-    return ndarray([SymNum({}, 0, 1) for _ in range(n)])
+    return ndarray([0 if RAW else SymNum({}, 0, 1) for _ in range(n)])
 
 
 def array(x, dtype=None):
@@ -203,6 +206,8 @@ _SHADOWING = {'sum': _np_sum, 'max': _np_max, 'min': _np_min, 'abs': absolute}  
 def __getattr__(name):
     if name in _SHADOWING:
         return _SHADOWING[name]
+    if name.startswith('__'):
+        raise AttributeError(name)
     from .engine import Unsupported
     raise Unsupported("numpy.%s is not modelled by the shim (stub S1)" % name)
 
